@@ -10,6 +10,7 @@
 -/
 import TrVerif.Props.NoExc
 import TrVerif.Props.C10
+import TrVerif.Props.C06
 namespace Tr
 
 /-- two contexts that agree on everything the inductive specifications read, the second one
@@ -311,5 +312,122 @@ theorem C10_alt_times (ds : Dataset) (hwf : WFData ds) (p : Params) (hmw : 0 ≤
       have hle := altMaxTravelTime_le p r0
       have h1 : p.time - r.departureTime ≤ altMaxTravelTime p r0 := hspan
       exact ⟨harr, by omega, hd0⟩
+
+
+/-- **C10 (c), scenario and walk limits of the ORIGINAL query.** Every route of an alternatives
+    answer rides only hops of the scenario's connection set, walks what the router offers within
+    the query's access / egress maxima (the tables of the first calculation are reused), and makes
+    no transfer walk longer than the transfer maximum. -/
+theorem C10_alt_limits (ds : Dataset) (hwf : WFData ds) (p : Params) (hmw : 0 ≤ p.minWait) (hmt : 0 ≤ p.maxTransfer)
+    {rs : List Route} {n : Nat} (h : alternativesRouting ds p = .ok (rs, n)) :
+    ∀ r ∈ rs,
+      ValidItinerary (ds.connSetOf (ds.scenarioOf p)).rev ds.foot
+        (routerLookup ds.access p.maxAccess) (routerLookup ds.egress p.maxEgress) (ds.mwOfTrip p) r ∧
+      transferWalksWithin p.maxTransfer r.steps := by
+  obtain ⟨r0, hr0, hall⟩ := alternatives_from ds p h
+  intro r hr
+  rcases hall r hr with rfl | ⟨comb, hc⟩
+  · obtain ⟨h1, _, _, _, h5⟩ := C02_partial ds hwf p hmw hmt hr0
+    exact ⟨h1, h5⟩
+  · have hsub := connSetOf_rev_sub ds (ds.scenarioOf p)
+    have hm : ArrMono (ds.connSetOf (ds.scenarioOf p)).rev :=
+      fun x hx y hy => conns_arrMono hwf.toWFSchedule x (hsub x hx) y (hsub y hy)
+    have hclean := fun depT arrT => cleanupPreserves
+      (timeWF_dataset hwf { p with maxTotal := altMaxTravelTime p r0, exceptLines := p.exceptLines ++ comb } hmw hmt (ds.scenarioOf p)
+        (routerLookup ds.access p.maxAccess) (routerLookup ds.egress p.maxEgress) depT arrT)
+      (sliceOK_dataset hwf { p with maxTotal := altMaxTravelTime p r0, exceptLines := p.exceptLines ++ comb } (ds.scenarioOf p)
+        (routerLookup ds.access p.maxAccess) (routerLookup ds.egress p.maxEgress) depT arrT)
+    constructor
+    · exact C01_modulo_cleanup (ds.restrict (ds.connSetOf (ds.scenarioOf p))) (ds.connSetOf (ds.scenarioOf p))
+        { p with maxTotal := altMaxTravelTime p r0, exceptLines := p.exceptLines ++ comb } _ _
+        (ds.connSetOf (ds.scenarioOf p)).rev (fun c hc => hc) (connSetOf_sorted ds _) hm hmw (ds.mwOfTrip p)
+        (fun c hc => conns_effWait hwf.toWFSchedule p c (hsub c hc)) hclean hc
+    · obtain ⟨depT, arrT, bd, j, rfl, hJ, _⟩ := calculateSingleWith_emits _ _
+        { p with maxTotal := altMaxTravelTime p r0, exceptLines := p.exceptLines ++ comb } _ _ (connSetOf_sorted ds _) hm hmw hclean hc
+      obtain ⟨acc, legs, egr, rfl, hacc, hegr, hne, hok, _, _⟩ := hJ
+      obtain ⟨hsteps, _⟩ := emit_steps (ds.restrict (ds.connSetOf (ds.scenarioOf p))) p.minWait bd acc egr legs hacc hegr hne hok.allLegs
+      show transferWalksWithin p.maxTransfer (emit (ds.restrict (ds.connSetOf (ds.scenarioOf p))) p.minWait bd ([acc] ++ legs ++ [egr])).steps
+      rw [hsteps]
+      intro s hs tt d dep arr rdy heq
+      rcases List.mem_cons.mp hs with h0 | h0
+      · rw [h0] at heq; cases heq
+      · exact stepsOfLegs_transfer _ _ egr legs (bd + acc.walk) hok s h0 tt d dep arr rdy heq
+
+
+/-- the first-waiting clause of C02 for any recalculation on a scenario's connection set -/
+theorem calcWith_first_wait (ds : Dataset) (hwf : WFData ds) (sc : Scenario) (p : Params) (hmw : 0 ≤ p.minWait)
+    (hmt : 0 ≤ p.maxTransfer) (a e : List NTD) {r : Route}
+    (h : calculateSingleWith (ds.restrict (ds.connSetOf sc)) (ds.connSetOf sc) p a e = .ok r) (hf : p.forward = true) (hd : p.time ≠ -1) :
+    ∃ w d t0 t1 t2 trip seq stop dep wait rest,
+      r.steps = .walk 0 w d t0 t1 t2 :: .board trip seq stop dep wait :: rest ∧
+      (p.maxFirstWait < ds.mwOfTrip p trip ∨ dep - p.time - w ≤ p.maxFirstWait) := by
+  have hsub := connSetOf_rev_sub ds sc
+  have hm : ArrMono (ds.connSetOf sc).rev :=
+    fun x hx y hy => conns_arrMono hwf.toWFSchedule x (hsub x hx) y (hsub y hy)
+  have key : ∃ arrT bd j, r = emit (ds.restrict (ds.connSetOf sc)) p.minWait bd j ∧
+      JourneyOK (mkCtx (ds.restrict (ds.connSetOf sc)) p (ds.connSetOf sc) a e p.time arrT) (ds.connSetOf sc).rev bd j := by
+    obtain ⟨depT, arrT, bd, j, h1, hJ, _, _, _, _, _, hD⟩ := calculateSingleWith_emits _ _ p _ _ (connSetOf_sorted ds _) hm hmw
+      (fun depT arrT => cleanupPreserves (timeWF_dataset hwf p hmw hmt sc a e depT arrT) (sliceOK_dataset hwf p sc a e depT arrT)) h
+    have hD' := hD hf
+    subst hD'
+    exact ⟨arrT, bd, j, h1, hJ⟩
+  obtain ⟨arrT, bd, j, rfl, hJ⟩ := key
+  obtain ⟨acc, legs, egr, rfl, hacc, hegr, hne, hok, hfirst, _⟩ := hJ
+  obtain ⟨hsteps, _⟩ := emit_steps (ds.restrict (ds.connSetOf sc)) p.minWait bd acc egr legs hacc hegr hne hok.allLegs
+  obtain ⟨l1, rest, rfl⟩ : ∃ l1 rest, legs = l1 :: rest := by
+    cases legs with
+    | nil => exact absurd rfl hne
+    | cons a b => exact ⟨a, b, rfl⟩
+  obtain ⟨e1, x1, he1, hx1⟩ := hok.allLegs l1 (List.mem_cons_self ..)
+  have hhead := stepsOfLegs_head (ds.restrict (ds.connSetOf sc)) p.minWait egr l1 rest (bd + acc.walk) e1 x1 he1 hx1
+  obtain ⟨_, _, hfw⟩ := hfirst e1 (by simp [he1])
+  have hcap := hfw hd
+  have hmem : e1 ∈ (ds.connSetOf sc).rev := hok.mem_enter l1 (List.mem_cons_self ..) e1 he1
+  have hmwe : e1.effWait p.minWait = ds.mwOfTrip p e1.trip := conns_effWait hwf.toWFSchedule p e1 (hsub e1 hmem)
+  cases hS : stepsOfLegs (ds.restrict (ds.connSetOf sc)) p.minWait (bd + acc.walk) (l1 :: rest) egr with
+  | nil => rw [hS] at hhead; simp at hhead
+  | cons b tl =>
+    rw [hS] at hhead hsteps
+    simp only [List.head?_cons, Option.some.injEq] at hhead
+    subst hhead
+    refine ⟨acc.walk, acc.dist, _, _, _, e1.trip, e1.seq, e1.depStop, e1.dep, _, tl, hsteps, ?_⟩
+    rw [← hmwe]
+    exact hcap
+
+/-- **C10 (c), first-waiting cap of the ORIGINAL query** for every route of an alternatives answer
+    to a departure-time query -/
+theorem C10_alt_first_wait (ds : Dataset) (hwf : WFData ds) (p : Params) (hmw : 0 ≤ p.minWait) (hmt : 0 ≤ p.maxTransfer)
+    (hf : p.forward = true) (hd : p.time ≠ -1) {rs : List Route} {n : Nat} (h : alternativesRouting ds p = .ok (rs, n)) :
+    ∀ r ∈ rs, ∃ w d t0 t1 t2 trip seq stop dep wait rest,
+      r.steps = .walk 0 w d t0 t1 t2 :: .board trip seq stop dep wait :: rest ∧
+      (p.maxFirstWait < ds.mwOfTrip p trip ∨ dep - p.time - w ≤ p.maxFirstWait) := by
+  obtain ⟨r0, hr0, hall⟩ := alternatives_from ds p h
+  intro r hr
+  rcases hall r hr with rfl | ⟨comb, hc⟩
+  · exact C02_first_wait ds hwf p hmw hmt hr0 hf hd
+  · exact calcWith_first_wait ds hwf (ds.scenarioOf p)
+      { p with maxTotal := altMaxTravelTime p r0, exceptLines := p.exceptLines ++ comb } hmw hmt _ _ hc hf hd
+
+
+/-- **C10 (c), totals (C06)** for every route of an alternatives answer -/
+theorem C10_alt_totals (ds : Dataset) (hwf : WFData ds) (p : Params) (hmw : 0 ≤ p.minWait) (hmt : 0 ≤ p.maxTransfer)
+    {rs : List Route} {n : Nat} (h : alternativesRouting ds p = .ok (rs, n)) :
+    ∀ r ∈ rs, ∃ legs : List JStep, Totals (ds.mwOfTrip p) (NoXfer (ds.restrict (ds.connSetOf (ds.scenarioOf p))) legs) r := by
+  obtain ⟨r0, hr0, hall⟩ := alternatives_from ds p h
+  intro r hr
+  rcases hall r hr with rfl | ⟨comb, hc⟩
+  · exact C06_route ds hwf p hmw hmt hr0
+  · have hsub := connSetOf_rev_sub ds (ds.scenarioOf p)
+    have hm : ArrMono (ds.connSetOf (ds.scenarioOf p)).rev :=
+      fun x hx y hy => conns_arrMono hwf.toWFSchedule x (hsub x hx) y (hsub y hy)
+    obtain ⟨depT, arrT, bd, j, rfl, hJ, _⟩ := calculateSingleWith_emits _ _
+      { p with maxTotal := altMaxTravelTime p r0, exceptLines := p.exceptLines ++ comb } _ _ (connSetOf_sorted ds _) hm hmw
+      (fun depT arrT => cleanupPreserves
+        (timeWF_dataset hwf { p with maxTotal := altMaxTravelTime p r0, exceptLines := p.exceptLines ++ comb } hmw hmt _ _ _ depT arrT)
+        (sliceOK_dataset hwf { p with maxTotal := altMaxTravelTime p r0, exceptLines := p.exceptLines ++ comb } _ _ _ depT arrT)) hc
+    obtain ⟨acc, legs, egr, rfl, hacc, hegr, hne, hok, _, _⟩ := hJ
+    refine ⟨legs, ?_⟩
+    exact C06_totals _ p.minWait bd (ds.mwOfTrip p) acc egr legs hacc hegr hne hok.allLegs
+      (fun l hl e he => conns_effWait hwf.toWFSchedule p e (hsub e (hok.mem_enter l hl e he)))
 
 end Tr
